@@ -342,6 +342,14 @@ class EngineExec:
             _H = None
             gc.collect(0)
 
+    def abandon(self) -> None:
+        """Leave without running anything more on the loop (crash semantics); use instead of __exit__."""
+        global _H
+        try:
+            self.loop.abandon()
+        finally:
+            _H = None
+
     # -- environment scripts: each script is a list of Actions executed in order at
     #    explorer-chosen quiescent points
     def add_script(self, actions: list[Action]) -> None:
